@@ -234,7 +234,12 @@ class ExpressionParser:
             expected = self.check(_FIRST_EXP)
             right = None
             if expected:
-                right = self.parse_mult()
+                # Division is not associative, so only the next operand belongs to
+                # the divisor: "a / b * c" is "(a / b) * c", not "a / (b * c)"
+                if opType == TOKEN_TYPES.Divide:
+                    right = self.parse_exponent()
+                else:
+                    right = self.parse_mult()
 
             if not expected or right is None:
                 assert self._all_tokens is not None
